@@ -110,6 +110,7 @@ def Skeleton.pinned : Skeleton where
   cvSliceElementwise := true
   cvFallbackError := true
   pxResultChecksValid := true
+  pxRecoverReports := true
   pxClosureIdPerInvocation := true
   pxCtxIsInvocationCtx := true
   pxArgsFreshPerInvocation := true
@@ -128,6 +129,7 @@ def Skeleton.pinned : Skeleton where
   seOrder := .closeThenStore
   seFirstOnly := false
   seBroadcasts := true
+  seClosesOnEveryPath := true
   seOnlyOwnLock := true
   seStoreUnderLock := true
   linkWaitsOnCond := true
@@ -177,6 +179,7 @@ def Skeleton.pinned : Skeleton where
   clNilErrorViaIsNil := true
   msgCodecPlain := true
   linkReturnsOnlyFatalSlot := true
+  recoverBlocksCanonical := false
   errBranchesHandled := true
   locksBalanced := true
   ucNoWaiting := true
